@@ -36,6 +36,11 @@ pub impl Vec<SpeedLimitPoint> {
         debug_assert!(self.is_valid());
         debug_assert!(self.first().unwrap().offset <= speed_limit.offset_start);
 
+        // A speed limit of zero length covers no position: nothing to enforce
+        if speed_limit.offset_start == speed_limit.offset_end {
+            return;
+        }
+
         // If the new speed is entirely after the end of all other speed points
         if self.last().unwrap().offset <= speed_limit.offset_start {
             let speed_old = self.last().unwrap().speed_limit;
